@@ -900,7 +900,8 @@ pub fn make_pipe(rng: &mut Rng, print_free: bool, size: usize) -> Option<Scenari
 pub fn make_ops(rng: &mut Rng, backends: &[Backend], print_free: bool) -> Scenario {
     let mut kit = Kit { next: 7000, printless: false, obs_budget: 0 };
     let rv = backends.contains(&Backend::Rv);
-    let cap = if rv { 13 } else { 30 };
+    // RISC-V has no spill slots: up to exactly 14 variables, the last of which lives in X30/X31
+    let cap = if rv { 15 } else { 30 };
     let k = rng.below(min_args(backends).min(3) + 1);
     let params: Vec<Bind> = (0..k).map(|_| ext(kit.fresh("arg"))).collect();
     let mut ctx = params.clone();
@@ -953,9 +954,14 @@ pub fn make_ops(rng: &mut Rng, backends: &[Backend], print_free: bool) -> Scenar
                 fin.push(Pre::Print { newline: true, var: r.clone() });
             }
         }
-        let z = kit.fresh("z");
-        fin.push(Pre::Lit { lit: 0, var: z.clone() });
-        fold(fin, Stmt::Exit { var: results.last().cloned().unwrap_or(z) })
+        match results.last() {
+            Some(r) => fold(fin, Stmt::Exit { var: r.clone() }),
+            None => {
+                let z = kit.fresh("z");
+                fin.push(Pre::Lit { lit: 0, var: z.clone() });
+                fold(fin, Stmt::Exit { var: z })
+            }
+        }
     };
     for _ in 0..ncmp {
         if ctx.is_empty() {
